@@ -4,6 +4,7 @@
    turns, i.e. are the same phase.  cos/sin/abs/angle are not modelled: see C14_gain_reproduces_valid_cartesian for what
    that means for the Cartesian value.  cal_product_types / default_cal_products are regenerated from the source. *)
 From Coq Require Import ZArith QArith Qround Qabs List Bool String Sorting.Sorted.
+From KV Require Import Model.CalPlace Proofs.CalPlaceP.
 From KV Require Import Base.Sx Base.Str Gen.Generated Model.Interp Model.CalInterp Model.CalSelect Model.CalDispatch
   Model.CalDeliver Proofs.InterpP Proofs.CalInterpP Proofs.CalStitchP Proofs.CalSelectP Proofs.CalDispatchP
   Proofs.CalDeliverP.
@@ -441,3 +442,119 @@ Theorem C14_delivered_direct : forall data cal gs i1 i2 c,
   delivered true data cal gs i1 i2 c = cmul (nth c (nth i1 gs []) None) (cconj (nth c (nth i2 gs []) None)).
 Proof. exact delivered_direct. Qed.
 Print Assumptions C14_delivered_direct.
+
+
+(* ====================================================================================================================
+   Fourth round: WHICH solutions reach the calculators and at which dump (Model/CalPlace.v), one-part split products,
+   the flux table merge and <stream>.<type> parsing as decisions regenerated from the source. *)
+
+(* PLACEMENT.  For every time-sorted solution history, every list of (kept) dump end times - i.e. also under a `dumps`
+   preselection, where solutions older than the first KEPT dump exist - and every product type, the bookkeeping of
+   sensor_to_categorical (extra prior dump, final prior event moved to dump 0, earlier ones sliced away, late ones
+   dropped, INVALID placeholder for gain types, last event per dump) is the documented placement: a solution counts for
+   the dump during which it was timestamped, one timestamped before the first dump counts for the first dump, the last
+   solution of a dump wins, solutions after the last dump are dropped. *)
+Theorem C14_place_is_documented :
+  (forall A init ends P (samples : list (prod Q A)), StronglySorted Qle (map fst samples) ->
+     place init ends P samples = spec_place init ends P samples) /\
+  (forall t ends P samples, StronglySorted Qle (map fst samples) ->
+     place_product t ends P samples = spec_place_product (mem_string t ["G"; "GPHASE"; "GAMP_PHASE"]%string) ends P samples) /\
+  (forall t ends P samples targets, StronglySorted Qle (map fst samples) ->
+     mem_string t ["G"; "GPHASE"; "GAMP_PHASE"]%string = true ->
+     gain_from_samples t ends P samples targets = spec_gain_from_samples ends P samples targets).
+Proof. exact (conj place_is_spec (conj place_product_is_spec gain_from_samples_is_spec)). Qed.
+Print Assumptions C14_place_is_documented.
+
+(* "holds the nearest valid solution before the first": of all solutions timestamped at or before the END of the first
+   kept dump (long before it, just before it, inside it) only the LAST reaches the calculator (as the solution of dump 0);
+   the earlier ones change nothing - whatever follows. *)
+Theorem C14_place_first_dump_only_last : forall A init ends P (pre : list (prod Q A)) s post,
+  ends <> [] -> Forall (fun x => dump_clamped ends P (fst x) = 0%Z) pre -> dump_clamped ends P (fst s) = 0%Z ->
+  spec_place init ends P (pre ++ s :: post) = spec_place init ends P (s :: post).
+Proof. exact spec_first_dump_only_last. Qed.
+Print Assumptions C14_place_first_dump_only_last.
+
+(* solutions timestamped after the last dump never reach a calculator *)
+Theorem C14_place_late_dropped : forall A init ends P (l late : list (prod Q A)),
+  forallb (fun s => negb (in_range ends P s)) late = true -> spec_place init ends P (l ++ late) = spec_place init ends P l.
+Proof. exact spec_late_dropped. Qed.
+Print Assumptions C14_place_late_dropped.
+
+(* solutions in range and in distinct dumps: EVERY one is a node at its own dump (nothing is moved, merged or dropped),
+   preceded by the INVALID placeholder exactly when nothing counts for the first dump *)
+Theorem C14_place_own_dump : forall A (i : A) ends P (samples : list (prod Q A)),
+  forallb (in_range ends P) samples = true ->
+  StronglySorted (fun a b => (fst a < fst b)%Z) (map (fun s => (dump_clamped ends P (fst s), snd s)) samples) ->
+  spec_place (Some i) ends P samples =
+  Some (with_initial (Some i) (map (fun s => (dump_clamped ends P (fst s), snd s)) samples)).
+Proof. exact spec_own_dump. Qed.
+Print Assumptions C14_place_own_dump.
+
+(* every placement is a well-formed solution history: starts at dump 0, dumps strictly increase and stay inside the data
+   set - the hypothesis StronglySorted of the gain theorems above is therefore always met *)
+Theorem C14_place_wellformed : forall A init ends P (samples : list (prod Q A)) l,
+  StronglySorted Qle (map fst samples) -> spec_place init ends P samples = Some l ->
+  StronglySorted (fun a b => (fst a < fst b)%Z) l /\ (exists v t, l = (0%Z, v) :: t) /\ Forall (fun p => (0 <= fst p < Z.max 1 (Z.of_nat (List.length ends)))%Z) l.
+Proof. exact spec_place_wellformed. Qed.
+Print Assumptions C14_place_wellformed.
+
+(* dumps 0..3 end at 1,3,5,7 (period 2): solutions at -10 and -1 (before the first dump), 1/2 (inside it), 4 (dump 2),
+   4.5 (dump 2 again), 9 (late): dump 0 gets the solution of 1/2, dump 2 the one of 4.5 *)
+Example place_example :
+  place_product "G" [1; 3; 5; 7] 2 [(-10, [Some (1, 0)]); (-1, [Some (2, 0)]); (1 # 2, [Some (3, 0)]);
+                                    (4, [Some (4, 0)]); (9 # 2, [Some (5, 0)]); (9, [Some (6, 0)])]
+  = Some [(0%nat, Some [Some (3, 0)]); (2%nat, Some [Some (5, 0)])]
+  /\ (* preselection dumps=slice(2, 4): the kept dumps end at 5, 7; all four older solutions are "before the first" *)
+  place_product "G" (preselect_dumps 2 4 [1; 3; 5; 7]) 2 [(-10, [Some (1, 0)]); (-1, [Some (2, 0)]); (1 # 2, [Some (3, 0)]);
+                                                          (6, [Some (4, 0)])]
+  = Some [(0%nat, Some [Some (3, 0)]); (1%nat, Some [Some (4, 0)])]
+  /\ (* nothing at or before the end of the first dump: the gain types start from the placeholder, K / B pull the first
+        solution back to dump 0 *)
+  place_product "G" [1; 3; 5] 2 [(4, [Some (4, 0)])] = Some [(0%nat, None); (2%nat, Some [Some (4, 0)])]
+  /\ place_product "B" [1; 3; 5] 2 [(4, [Some (4, 0)])] = Some [(0%nat, Some [Some (4, 0)])].
+Proof. vm_compute. repeat split; reflexivity. Qed.
+
+(* the regenerated sensor properties (visdatav4.SENSOR_PROPS) are the documented ones: exactly the gain types start
+   from the INVALID_GAIN placeholder and keep repeated solutions *)
+Theorem C14_cal_sensor_props :
+  cal_initial_invalid = ["G"; "GPHASE"; "GAMP_PHASE"]%string /\ cal_allow_repeats = ["G"; "GPHASE"; "GAMP_PHASE"]%string.
+Proof. exact cal_sensor_props_documented. Qed.
+Print Assumptions C14_cal_sensor_props.
+
+(* ONE-PART SPLIT PRODUCTS.  With the attribute product_<type>_parts = n the product is stitched from the sensors
+   <type>0 .. <type>(n-1); for n = 1 it IS the sensor <type>0 (KeyError when that one is missing or empty) whatever the
+   unsuffixed sensor <type> holds; without the attribute only the unsuffixed sensor is read; n = 0 -> KeyError. *)
+Theorem C14_parts_attribute :
+  (forall lookup, indirect_product lookup (Some 1%nat) =
+     match lookup (Some 0%nat) with Some (s :: r) => Some (s :: r) | _ => None end) /\
+  (forall lookup, indirect_product lookup None = lookup None) /\
+  (forall lookup, indirect_product lookup (Some 0%nat) = None) /\
+  (forall lookup n, indirect_product lookup (Some n) =
+     stitch (map (fun i => match lookup (Some i) with Some p => p | None => [] end) (seq 0 n))) /\
+  (forall p : part, stitch [p] = match p with [] => None | _ => Some p end).
+Proof. exact (conj indirect_one_part (conj indirect_no_parts_attr (conj indirect_zero_parts (conj indirect_is_stitch stitch_single)))). Qed.
+Print Assumptions C14_parts_attribute.
+Example one_part_example :
+  let lookup := fun k => match k with None => Some [(0, [Some (9, 0)])] | Some O => Some [(1, [Some (2, 0)])] | _ => None end in
+  indirect_product lookup (Some 1%nat) = Some [(1, [Some (2, 0)])] /\ indirect_product lookup None = Some [(0, [Some (9, 0)])].
+Proof. vm_compute. split; reflexivity. Qed.
+
+(* <stream>.<type> NAMES, for every string: split at the LAST dot (the stream may contain dots, the type never does);
+   no dot -> ValueError; the halves put together give the name back *)
+Theorem C14_parse_cal_product :
+  (forall s, parse_cal_product s = rsplit_dot s) /\
+  (forall s t, has_dot t = false -> rsplit_dot (s ++ "." ++ t)%string = Some (s, t)) /\
+  (forall s, rsplit_dot s = None <-> has_dot s = false) /\
+  (forall s a b, rsplit_dot s = Some (a, b) -> s = (a ++ "." ++ b)%string /\ has_dot b = false).
+Proof. exact (conj parse_is_rsplit (conj rsplit_last_dot (conj rsplit_none_iff rsplit_sound))). Qed.
+Print Assumptions C14_parse_cal_product.
+Example parse_example :
+  parse_cal_product "a.b.G" = Some ("a.b", "G")%string /\ parse_cal_product "l1G" = None /\ parse_cal_product "l1." = Some ("l1", "")%string /\ parse_cal_product ".G" = Some ("", "G")%string.
+Proof. vm_compute. repeat split; reflexivity. Qed.
+
+(* the decisions read off add_applycal_sensors / indirect_cal_product / _parse_cal_product are the documented ones:
+   gaincal_flux=None disables flux calibration, a user table UPDATES the pipeline's (C14_flux_override is about
+   merge_flux, which is that update), parts are numbered from 0, names split at the last dot *)
+Theorem C14_source_decisions_round4 : flux_none_disables = true /\ flux_override_wins = true /\ parts_first_index = 0%nat /\ parse_splits_at_last_dot = true /\ parts_shape_checked = true /\ request_parsing_shape_checked = true.
+Proof. exact flux_merge_decisions. Qed.
+Print Assumptions C14_source_decisions_round4.
